@@ -643,9 +643,23 @@ class World:
             if r0 and r0[0] == "func" and self.is_json_loader(r0[1]):
                 return T_SPEC
         if isinstance(e, ast.Call):
-            r = self.prog.resolve_name_expr(mi, e.func)
-            if r and r[0] == "external":
-                return "ext:" + r[1] + "()"
+            def chain(c):
+                """ext:<dotted name>() for a (chain of) call(s) on an external name: pkg.Cls().meth(...).meth2(...)"""
+                if not isinstance(c, ast.Call):
+                    return None
+                f_ = c.func
+                if isinstance(f_, (ast.Name, ast.Attribute)):
+                    r_ = self.prog.resolve_name_expr(mi, f_) if not (isinstance(f_, ast.Attribute) and isinstance(f_.value, ast.Call)) else None
+                    if r_ and r_[0] == "external":
+                        return "ext:" + r_[1] + "()"
+                if isinstance(f_, ast.Attribute) and isinstance(f_.value, ast.Call):
+                    b_ = chain(f_.value)
+                    if b_ is not None:
+                        return f"{b_}.{f_.attr}()"
+                return None
+            t_ = chain(e)
+            if t_ is not None:
+                return t_
         if isinstance(e, ast.Dict):
             return T_DICT
         return None
